@@ -110,6 +110,7 @@ VERIF_TARGET(c28_testaccept, nullptr, 140, 2000,
              "distinct = history shape + verdicts")
 {
     MempoolSimOpts o = PickHistoryConfig(s, st);
+    o.with_mempool_checks = false; // CTxMemPool::check() after every ATMP is C22's extra monitor; here it would only cost time (256 KiB cache per call)
     MempoolSim ms(o);
     TestAcceptOracle oracle{ms, st, ms.pool().m_opts.max_size_bytes, int64_t(ms.pool().m_opts.expiry.count())};
     HistoryHooks hooks;
